@@ -231,6 +231,11 @@ def check(ctx):
                     funcs_with_flow.add(fi.id)
     # the blocks of the generated code
     tflows, tsites = check_templates_decode(ctx)
+    # ... are the blocks generated for *this* declaration: the reuse cookie covers the generated text
+    # (struct formats and sizes).  Checked on a direct call only (C12 / C03 / C06 re-use this check).
+    if ctx.prop == 'C04':
+        from .c15 import check_hash_covers_generated_code
+        check_hash_covers_generated_code(ctx, 'R4-generated-code-is-current')
     sites += tsites
     ctx.unit('raw_read_sites', sites)
     ctx.unit('stored_value_flows', flows + tflows)
